@@ -292,7 +292,7 @@ Qed.
 
 Lemma D_le_inf : forall q, 0 <= q -> forall a b, D (Some q) a b <= D None a b.
 Proof.
-  intros q Hq a b. rewrite D_cost_inf. apply D_upper. intros ? [= <-]; assumption.
+  intros q Hq a b. rewrite D_cost_inf. apply D_upper.
 Qed.
 
 (* ------------------------------------------------------------------ the grid computation refines D *)
